@@ -429,6 +429,11 @@ Definition rec_bottom : rec :=
         (fun _ => out_of_fuel) (fun _ => out_of_fuel).
 
 Section Parser.
+(* stm_leaks = true: `single_target_mode` is a parser-wide flag, so while the right-hand side `e`
+   of `target op= e` is parsed EVERY nested `expression()` call (arguments, parentheses, indices,
+   lambda bodies, ...) parses at BitwiseOr precedence (the behaviour of compiler.rs today).
+   stm_leaks = false: only the top level of `e` is parsed at BitwiseOr precedence. *)
+Variable stm_leaks : bool.
 Variable rules : tkind -> rule.
 Variable r : rec.
 
@@ -483,10 +488,12 @@ Definition parameter_list (right_delim : tkind) : M (list name) :=
 
 (* fn binary_assign: the right-hand side of `target op= e` *)
 Definition binary_assign : M expr :=
-  set_stm true ;;;
-  e <- expression ;;
-  set_stm false ;;;
-  ret e.
+  if stm_leaks then
+    set_stm true ;;;
+    e <- expression ;;
+    set_stm false ;;;
+    ret e
+  else r_parse_precedence r PrecBitwiseOr.
 
 (* fn named_variable *)
 Definition named_variable (name : list byte) (can_assign : bool) : M expr :=
@@ -580,7 +587,10 @@ Definition interp_loop (acc : list interp_part) : M (list interp_part) :=
        ret (rev (lit_part p acc)).
 
 Definition interpolation (can_assign : bool) : M expr :=
-  parts <- r_interp_loop r [] ;; ret (EInterp parts).
+  parts <- r_interp_loop r [] ;;
+  (if Nat.ltb 255 (length parts)
+   then error "Cannot have more than 255 parts in an interpolated string." else ret tt) ;;;
+  ret (EInterp parts).
 
 Definition number (can_assign : bool) : M expr :=
   p <- previous ;;
@@ -1051,20 +1061,23 @@ Definition step : rec :=
 
 End Parser.
 
-Fixpoint knot (rules : tkind -> rule) (fuel : nat) : rec :=
+Fixpoint knot (stm_leaks : bool) (rules : tkind -> rule) (fuel : nat) : rec :=
   match fuel with
   | O => rec_bottom
-  | S f => step rules (knot rules f)
+  | S f => step stm_leaks rules (knot stm_leaks rules f)
   end.
+
+(* THE switch for the single_target_mode behaviour of the reference parser (see Section Parser). *)
+Definition stm_leaks_ref : bool := true.
 
 (* Parser::new + the first advance() of fn parse *)
 Definition init_pstate (toks : list token) : pstate :=
   mkP default_token default_token toks false [new_comp FScript] [] [] None.
 
 (* fn parse *)
-Definition parse (rules : tkind -> rule) (fuel : nat) : M program :=
+Definition parse (stm_leaks : bool) (rules : tkind -> rule) (fuel : nat) : M program :=
   advance ;;;
-  p <- r_program_loop (knot rules fuel) ;;
+  p <- r_program_loop (knot stm_leaks rules fuel) ;;
   check_no_attributes ;;;
   ret p.
 
@@ -1077,17 +1090,25 @@ Definition run {A} (m : M A) (toks : list token) : presult A :=
 
 Definition default_fuel (toks : list token) : nat := 8 * length toks + 64.
 
-Definition parse_program_with (rules : tkind -> rule) (toks : list token) : presult program :=
-  run (parse rules (default_fuel toks)) toks.
+Definition parse_program_gen (stm_leaks : bool) (rules : tkind -> rule) (toks : list token)
+  : presult program :=
+  run (parse stm_leaks rules (default_fuel toks)) toks.
+
+Definition parse_program_with (rules : tkind -> rule) : list token -> presult program :=
+  parse_program_gen stm_leaks_ref rules.
 
 Definition parse_program : list token -> presult program := parse_program_with rules_ref.
 
 (* A single expression followed by Eof (used by the round-trip theorems): `expression()` at the top
    level of a script, then the next token must be Eof. *)
-Definition parse_expr_with (rules : tkind -> rule) (toks : list token) : presult expr :=
+Definition parse_expr_gen (stm_leaks : bool) (rules : tkind -> rule) (toks : list token)
+  : presult expr :=
   run (advance ;;;
-       e <- expression (knot rules (default_fuel toks)) ;;
+       e <- expression (knot stm_leaks rules (default_fuel toks)) ;;
        consume TEof "Expected end of expression." ;;;
        ret e) toks.
+
+Definition parse_expr_with (rules : tkind -> rule) : list token -> presult expr :=
+  parse_expr_gen stm_leaks_ref rules.
 
 Definition parse_expr : list token -> presult expr := parse_expr_with rules_ref.
